@@ -208,4 +208,197 @@ theorem checkExpr_logicOk (env : Env) (vars : List (String × Ty)) :
                           · simp [hbr] at h
                           · exact ⟨rfl, rfl⟩
 
+
+/-! ### every operator application, at every depth -/
+
+/-- every operator inside the expression is applied to operands of the kind it needs, as the checker's own
+    predicates judge them: arithmetic to numbers, ordering comparisons to two numbers or two strings, And / Or to
+    booleans, negation to something that is no string (`==` / `!=` only need operands that are fine themselves) -/
+def OperandsOk (env : Env) (vars : List (String × Ty)) : Expr → Prop
+  | .bin op l r => OperandsOk env vars l ∧ OperandsOk env vars r ∧
+      (op ∈ arithOps → exprIsNumber env vars l = some true ∧ exprIsNumber env vars r = some true) ∧
+      (op ∈ ordOps → (exprIsNumber env vars l = some true ∧ exprIsNumber env vars r = some true) ∨
+                     (exprIsString env vars l = some true ∧ exprIsString env vars r = some true)) ∧
+      (op ∈ boolOps → exprIsBoolean env vars l = some true ∧ exprIsBoolean env vars r = some true)
+  | .not e => OperandsOk env vars e
+  | .paren e => OperandsOk env vars e
+  | _ => True
+
+theorem arith_not_ord {op : String} (h : arithOps.contains op = true) : ¬ op ∈ ordOps := by
+  intro hb
+  simp only [ordOps, List.mem_cons, List.not_mem_nil, or_false] at hb
+  rcases hb with rfl | rfl | rfl | rfl <;> revert h <;> decide
+
+/-- what counts as a string contains no operator -/
+theorem exprIsString_operandsOk (env : Env) (vars : List (String × Ty)) :
+    (e : Expr) → exprIsString env vars e = some true → OperandsOk env vars e
+  | .lit _, _ => by simp [OperandsOk]
+  | .path _, _ => by simp [OperandsOk]
+  | .none, _ => by simp [OperandsOk]
+  | .not _, h => by simp [exprIsString] at h
+  | .paren e, h => by
+    have := exprIsString_operandsOk env vars e (by simpa [exprIsString] using h)
+    simpa [OperandsOk] using this
+  | .bin _ _ _, h => by simp [exprIsString] at h
+
+
+theorem ord_not_arith {op : String} (h : ordOps.contains op = true) : ¬ op ∈ arithOps := by
+  intro hb
+  simp only [arithOps, List.mem_cons, List.not_mem_nil, or_false] at hb
+  rcases hb with rfl | rfl | rfl | rfl <;> revert h <;> decide
+
+/-- what counts as a number is built from well-applied operators only -/
+theorem exprIsNumber_operandsOk (env : Env) (vars : List (String × Ty)) :
+    (e : Expr) → exprIsNumber env vars e = some true → OperandsOk env vars e
+  | .lit _, _ => by simp [OperandsOk]
+  | .path _, _ => by simp [OperandsOk]
+  | .none, _ => by simp [OperandsOk]
+  | .not _, h => by simp [exprIsNumber] at h
+  | .paren e, h => by
+    have := exprIsNumber_operandsOk env vars e (by simpa [exprIsNumber] using h)
+    simpa [OperandsOk] using this
+  | .bin op l r, h => by
+    simp only [exprIsNumber] at h
+    split at h
+    · simp at h
+    · rename_i hb
+      have hb' : ¬ op ∈ boolOps := by simpa using hb
+      cases hl : exprIsNumber env vars l with
+      | none => simp [hl] at h
+      | some b =>
+        cases b
+        · simp [hl] at h
+        · simp only [hl] at h
+          exact ⟨exprIsNumber_operandsOk env vars l hl, exprIsNumber_operandsOk env vars r h,
+            fun _ => ⟨hl, h⟩, fun _ => Or.inl ⟨hl, h⟩, fun hx => absurd hx hb'⟩
+
+/-- **every operator is applied to operands of its kind, wherever it stands**: an expression that
+    `check_expression` accepts is `OperandsOk` -/
+theorem checkExpr_operandsOk (env : Env) (vars : List (String × Ty)) :
+    (e : Expr) → checkExpr env vars e = some [] → OperandsOk env vars e
+  | .lit _, _ => by simp [OperandsOk]
+  | .path _, _ => by simp [OperandsOk]
+  | .none, _ => by simp [OperandsOk]
+  | .paren e, h => by
+    have := checkExpr_operandsOk env vars e (by simpa [checkExpr] using h)
+    simpa [OperandsOk] using this
+  | .not e, h => by
+    simp only [checkExpr] at h
+    cases hc : checkExpr env vars e with
+    | none => simp [hc] at h
+    | some ks =>
+      cases ks with
+      | cons k ks => simp [hc] at h
+      | nil =>
+        have := checkExpr_operandsOk env vars e hc
+        simpa [OperandsOk] using this
+  | .bin op l r, h => by
+    simp only [checkExpr] at h
+    split at h
+    · simp at h
+    · split at h
+      · simp at h
+      · split at h
+        · -- ordering comparison: both sides numbers or both strings
+          rename_i hord
+          have hna : ¬ op ∈ arithOps := ord_not_arith hord
+          have hnb : ¬ op ∈ boolOps := ord_not_bool hord
+          have strs : ∀ (hs : exprIsString env vars l = some true) (hr : exprIsString env vars r = some true),
+              OperandsOk env vars (.bin op l r) := fun hs hr =>
+            ⟨exprIsString_operandsOk env vars l hs, exprIsString_operandsOk env vars r hr,
+              fun ha => absurd ha hna, fun _ => Or.inr ⟨hs, hr⟩, fun hx => absurd hx hnb⟩
+          cases hl : exprIsNumber env vars l with
+          | none => simp [hl] at h
+          | some ln =>
+            simp only [hl] at h
+            cases ln
+            · simp only [Bool.false_eq_true, if_false] at h
+              cases hs : exprIsString env vars l with
+              | none => simp [hs] at h
+              | some ls =>
+                simp only [hs] at h
+                cases ls
+                · simp at h
+                · simp only [if_true] at h
+                  cases hr : exprIsString env vars r with
+                  | none => simp [hr] at h
+                  | some rs =>
+                    cases rs
+                    · simp [hr] at h
+                    · exact strs hs hr
+            · simp only [if_true] at h
+              cases hr : exprIsNumber env vars r with
+              | none => simp [hr] at h
+              | some rn =>
+                cases rn
+                · simp only [hr] at h
+                  cases hs : exprIsString env vars l with
+                  | none => simp [hs] at h
+                  | some ls =>
+                    simp only [hs] at h
+                    cases ls
+                    · simp at h
+                    · simp only [if_true] at h
+                      cases hr2 : exprIsString env vars r with
+                      | none => simp [hr2] at h
+                      | some rs =>
+                        cases rs
+                        · simp [hr2] at h
+                        · exact strs hs hr2
+                · exact ⟨exprIsNumber_operandsOk env vars l hl, exprIsNumber_operandsOk env vars r hr,
+                    fun ha => absurd ha hna, fun _ => Or.inl ⟨hl, hr⟩, fun hx => absurd hx hnb⟩
+        · split at h
+          · -- arithmetic: both sides numbers
+            rename_i harith
+            cases hl : exprIsNumber env vars l with
+            | none => simp [hl] at h
+            | some ln =>
+              simp only [hl] at h
+              cases ln
+              · simp at h
+              · simp only [if_true] at h
+                cases hr : exprIsNumber env vars r with
+                | none => simp [hr] at h
+                | some rn =>
+                  cases rn
+                  · simp [hr] at h
+                  · exact ⟨exprIsNumber_operandsOk env vars l hl, exprIsNumber_operandsOk env vars r hr,
+                      fun _ => ⟨hl, hr⟩, fun ho => absurd ho (arith_not_ord harith), fun hx => absurd hx (arith_not_bool harith)⟩
+          · -- And / Or / == / !=
+            rename_i hnord hnarith
+            have hno : ¬ op ∈ ordOps := by simpa using hnord
+            have hna : ¬ op ∈ arithOps := by simpa using hnarith
+            cases hl : checkExpr env vars l with
+            | none => simp [hl] at h
+            | some kl =>
+              cases kl with
+              | cons k ks => simp [hl] at h
+              | nil =>
+                simp only [hl] at h
+                cases hr : checkExpr env vars r with
+                | none => simp [hr] at h
+                | some kr =>
+                  cases kr with
+                  | cons k ks => simp [hr] at h
+                  | nil =>
+                    simp only [hr] at h
+                    refine ⟨checkExpr_operandsOk env vars l hl, checkExpr_operandsOk env vars r hr,
+                      fun ha => absurd ha hna, fun ho => absurd ho hno, ?_⟩
+                    intro hb
+                    have hb' : boolOps.contains op = true := by simpa using hb
+                    simp only [hb', if_true] at h
+                    cases hbl : exprIsBoolean env vars l with
+                    | none => simp [hbl] at h
+                    | some bl =>
+                      simp only [hbl] at h
+                      cases bl
+                      · simp at h
+                      · simp only [if_true] at h
+                        cases hbr : exprIsBoolean env vars r with
+                        | none => simp [hbr] at h
+                        | some br =>
+                          cases br
+                          · simp [hbr] at h
+                          · exact ⟨rfl, rfl⟩
+
 end Pfdl.Check
